@@ -104,6 +104,8 @@ pub struct SplitFam;
 const ALPHA: &[&str] = &["a", "b", ",", "é", "€", "😀", "aa", "ab", "a", ",", "ᄀ", "à", "¬", "À", "\u{3000}", "ì"];
 /// one char at each boundary of the UTF-8 lead-byte classes (C2, DF, E0, ED, EE, EF, F0, F4)
 const LEAD_BYTE_EDGES: &[&str] = &["\u{80}", "\u{7ff}", "\u{800}", "\u{fff}", "\u{d7ff}", "\u{e000}", "\u{f000}", "\u{feff}", "\u{ffff}", "\u{10000}", "\u{3ffff}", "\u{10ffff}"];
+/// chars sharing one, two or three leading bytes (or only the last byte) with the delimiter chars é € 😀
+const LOOKALIKES: &[&str] = &["ê", "\u{129}", "\u{20ad}", "\u{201a}", "\u{2200}", "\u{1f601}", "\u{1f630}", "\u{1f640}", "\u{1f000}"];
 const DELIMS: &[&str] = &["", "a", "aa", "ab", "aab", ",", ",,", "é", "€a", "aba", "abab", "b", "😀", ",a,", "aaa", "abaab", "aabaa", "ééa", "€€", "a😀a", "<--"];
 const DELIM_CHARS: &[char] = &['a', ',', '€', 'é', '😀', 'b'];
 
@@ -168,6 +170,7 @@ impl Fam for SplitFam {
         }
         // assembled from tokens so that delimiters occur, touch, lead, trail and overlap
         let w_delim = *rng.pick(&[1u64, 2, 4]);
+        let mut near_buf;
         while count < n {
             let t: &str = if !ds.is_empty() && rng.chance(w_delim, 6) {
                 ds.as_str()
@@ -176,8 +179,18 @@ impl Fam for SplitFam {
                 let idx: Vec<usize> = ds.char_indices().map(|(i, _)| i).collect();
                 let k = *rng.pick(&idx);
                 &ds[..k]
+            } else if !ds.is_empty() && rng.chance(1, 8) {
+                // a near miss: the delimiter with one char swapped for a look-alike that shares all but
+                // its last UTF-8 byte (a partial match defeated on a continuation byte, possibly directly
+                // in front of a real occurrence)
+                let cs: Vec<char> = ds.chars().collect();
+                let at = rng.below(cs.len() as u64) as usize;
+                let near: String = cs.iter().enumerate().map(|(i, c)| if i == at { char::from_u32(*c as u32 ^ 1).unwrap_or(*c) } else { *c }).collect();
+                near_buf = near;
+                near_buf.as_str()
             } else if rng.chance(1, 8) {
-                *rng.pick(LEAD_BYTE_EDGES)
+                let set = if rng.chance(1, 3) { LOOKALIKES } else { LEAD_BYTE_EDGES };
+                *rng.pick(set)
             } else {
                 *rng.pick(ALPHA)
             };
